@@ -652,6 +652,11 @@ const (
 // rules (abstract integers in 64 bits, abstract floats in binary64) and
 // converts the result to dst (nil: keep / concretise by default rules).
 // decls are module-scope constants the expression may refer to.
+// LastConstRoundTies is the number of round() calls at an exact .5 tie met by the
+// latest ConstEval (callers that build a run-time twin need it: targets with an
+// implementation-defined tie direction cannot be compared there).
+var LastConstRoundTies int
+
 func ConstEval(e wgen.Expr, dst *wgen.Type, decls []*wgen.Var) (v Value, class ConstClass, why string) {
 	m := &machine{ev: &Events{}, limit: 200000, globals: map[*wgen.Var]*Value{}, private: map[*wgen.Var]*Value{}, constMode: true}
 	m.fr = &frame{vars: map[*wgen.Var]*Value{}}
@@ -679,9 +684,14 @@ func ConstEval(e wgen.Expr, dst *wgen.Type, decls []*wgen.Var) (v Value, class C
 		v = m.concretizeDefault(v)
 	}
 	ev := m.ev
+	LastConstRoundTies = ev.RoundTie
 	switch {
 	case ev.AbsWide > 0 && AbsWideUnjudged:
 		return v, ConstUnspecified, "abstract-int intermediate outside the i32 range (open finding)"
+	case (ev.NotRepresentable > 0 || ev.DivZero > 0) && ev.AbsOverflow+ev.IntOverflow+ev.ShiftWide+ev.NegOverflow+ev.DivOverflow > 0:
+		// the error is only reached through a wrapped / overflowed concrete intermediate
+		// (4294967295u + 1u, (-65536i) << 16u), whose own treatment is not judged
+		return v, ConstUnspecified, "outside the judged domain"
 	case ev.NotRepresentable > 0:
 		return v, ConstMustReject, "value not representable in its type"
 	case ev.DivZero > 0:
